@@ -184,10 +184,12 @@ class PROP(PropCheck):
                 "C17_can_move_iff", "C17_move_advances_one", "C17_blocked_move_exits", "C17_true_only_at_goal",
                 "C17_parse_cp_inv", "C17_move_cp_inv", "C17_checkpoints_in_order", "C17_move_frame",
                 "C17_malformed_unknown_symbol", "C17_malformed_no_robot", "C17_malformed_two_robots",
-                "C17_inv_holds_somewhere"]
+                "C17_inv_holds_somewhere",
+                "C17_parse_grid_digits", "C17_step_digits", "C17_render_faithful"]
+    audit_modules = ["C17", "C17b"]
     coq_imports = ["Robot", "Obs"]
     model_targets = ["theories/Obs.vo"]
-    prop_targets = ["theories/Props/C17.vo"]
+    prop_targets = ["theories/Props/C17.vo", "theories/Props/C17b.vo"]
     harness_mode = "run"
     trusted_base = [
         "Coq 8.16.1 kernel and its bytecode VM (vm_compute evaluates the model on the correspondence cases)",
